@@ -360,6 +360,14 @@ func (p *specParser) typeExpr() string {
 	if p.cur().k != "id" {
 		panic(fmt.Sprintf("type expected, got %q", p.cur().s))
 	}
+	if p.cur().s == "map" {
+		p.next()
+		p.expect("[")
+		k := p.typeExpr()
+		p.expect("]")
+		v := p.typeExpr()
+		return b.String() + "map[" + k + "]" + v
+	}
 	b.WriteString(p.next().s)
 	if p.isOp(".") {
 		p.next()
